@@ -72,10 +72,41 @@ def yields(fn_node):
       lv, env = push(lv, env, g.target.id, g.iter, list(g.ifs))
     out.append((lv, _sub(node.elt, env), acc))
 
+  lists = {}     # name -> single-element list display it was initialised with
+
   def walk(stmts, levels, env):
     env = dict(env)
     levels = [dict(l, conds=list(l['conds'])) for l in levels]
     for st in stmts:
+      if isinstance(st, ast.Assign) and len(st.targets) == 1 and isinstance(
+          st.targets[0], ast.Name) and isinstance(st.value, ast.List) and \
+          len(st.value.elts) == 1:
+        lists[st.targets[0].id] = _sub(st.value.elts[0], env)
+      # an explicit work list that visits a tree: `while P: n = P.pop();
+      # P.extend(ast.iter_child_nodes(n)); ...` with P = [root]  ==  for n in
+      # ast.walk(root) (the visiting order is immaterial for a collection)
+      if isinstance(st, ast.While) and isinstance(st.test, ast.Name) and \
+          st.test.id in lists and not st.orelse:
+        P = st.test.id
+        pops = [b for b in st.body if isinstance(b, ast.Assign) and len(b.targets) == 1
+                and isinstance(b.targets[0], ast.Name) and isinstance(b.value, ast.Call)
+                and core.norm(b.value.func) in (P + '.pop', P + '.popleft')]
+        if len(pops) == 1:
+          nvar = pops[0].targets[0].id
+          ext = [b for b in st.body if isinstance(b, ast.Expr) and isinstance(
+              b.value, ast.Call) and core.norm(b.value.func) == P + '.extend' and
+                 len(b.value.args) == 1 and core.norm(b.value.args[0]) ==
+                 'ast.iter_child_nodes(%s)' % nvar]
+          others = [b for b in st.body if b is not pops[0] and b not in ext]
+          if len(ext) == 1 and not any(
+              isinstance(x, ast.Name) and x.id == P for b in others for x in ast.walk(b)) \
+              and not any(isinstance(x, ast.Break) for b in others for x in ast.walk(b)):
+            it = ast.Call(func=ast.Attribute(value=ast.Name(id='ast', ctx=ast.Load()),
+                                             attr='walk', ctx=ast.Load()),
+                          args=[lists[P]], keywords=[])
+            l2, e2 = push(levels, env, nvar, it, [])
+            walk(others, l2, e2)
+            continue
       if isinstance(st, ast.Assign) and len(st.targets) == 1 and isinstance(
           st.targets[0], ast.Name):
         v = st.value
